@@ -224,7 +224,7 @@ func checkColorRecord(rc recCase, payloads []string, pan string) (clause, detail
 			}
 			endv = pos + j
 		} else if rc.Caller {
-			j := strings.LastIndex(head, " ")  // function
+			j := strings.LastIndex(head, " ")             // function
 			k := strings.LastIndex(head[:max(j, 0)], " ") // file:line
 			if j < 0 || k < pos {
 				return "layout/caller", fmt.Sprintf("no caller after the attributes: %.300q", head)
